@@ -1371,14 +1371,11 @@ func main() {
 			return
 		}
 	}
-	n := 2000 * r.Scale
-	if r.Tier == "thorough" {
-		n = n * 3 / 2 // 60 000 histories
-	}
+	n := 2000 * r.Scale // thorough: 40 000 histories (60 000 took 19.8 min on the loaded machine once the probe, the fresh-view scenario and the flag calls were added)
 	hangs := 0
-	largeEvery := 50
+	largeEvery, freshEvery := 50, 50
 	if r.Tier == "thorough" {
-		largeEvery = 200 // the large-store scenario is the expensive one under -race
+		largeEvery, freshEvery = 200, 200 // the large-store and fresh-view scenarios are the expensive ones under -race
 	}
 	for i := 0; i < n && hangs < 2; i++ {
 		rng, sub := r.Rng.Fork()
@@ -1397,7 +1394,7 @@ func main() {
 			res = runLarge(rng, r)
 		} else if i%50 == 33 {
 			res = runCommitClose(rng, r)
-		} else if i%50 == 43 {
+		} else if i%freshEvery == 43 {
 			res = runFreshView(rng, r)
 		} else {
 			res = runStress(rng, r)
